@@ -393,6 +393,34 @@ theorem distinct_fold (vs : List Val) (seen : List Val) (hnd : seen.Nodup) (hm :
       simp only [List.mem_append, List.mem_singleton, List.mem_cons]
       grind
 
+/-! ### the variance is non-negative (its square root is defined) -/
+
+theorem mul_self_nonneg (x : Rat) : 0 ≤ x * x := by
+  rcases (Rat.le_total : 0 ≤ x ∨ x ≤ 0) with h | h
+  · exact Rat.mul_nonneg h h
+  · have : 0 ≤ (-x) * (-x) := Rat.mul_nonneg (by grind) (by grind)
+    grind
+
+theorem sum_nonneg (l : List Rat) (h : ∀ x ∈ l, 0 ≤ x) : 0 ≤ sum l := by
+  induction l with
+  | nil => simp [sum]
+  | cons x xs ih =>
+    rw [sum_cons]
+    exact Rat.add_nonneg (h x (by simp)) (ih (fun y hy => h y (List.mem_cons_of_mem _ hy)))
+
+theorem div_nonneg (a b : Rat) (ha : 0 ≤ a) (hb : 0 ≤ b) : 0 ≤ a / b := by
+  rw [Rat.div_def]
+  exact Rat.mul_nonneg ha (Lean.Grind.Field.IsOrdered.inv_nonneg_iff.mpr hb)
+
+theorem sampleVar_nonneg (l : List Rat) : 0 ≤ sampleVar l := by
+  unfold sampleVar
+  apply div_nonneg
+  · apply sum_nonneg
+    intro x hx
+    obtain ⟨y, _, rfl⟩ := List.mem_map.mp hx
+    exact mul_self_nonneg _
+  · exact Rat.natCast_nonneg
+
 /-! ### NaN-free inputs -/
 
 theorem floats_of_no_nan (vs : List Val) (h : Val.nan ∉ vs) : floats vs = (valid vs).map F.num := by
